@@ -1034,6 +1034,11 @@ enum Emu {
     /// predicate_pushdown.rs picks the side from binary-operator column references only: an IS [NOT] NULL
     /// conjunct on the other table travels with the predicate and is evaluated without its column
     PushdownMisroutesIsNull,
+    /// a join input planned as IndexScan / SecondaryIndexScan (WHERE indexed_col <op> literal) is materialised as a full
+    /// table scan by the hand-written join executor: the index condition is lost (variant: only that condition)
+    IndexScanJoinInputLosesKeyPredicate,
+    /// same, variant: every pushed-down conjunct on that table is lost with it
+    IndexScanJoinInputLosesAllPredicates,
     /// hash join paths (GraceHashJoin / StreamingHashJoin plans) take only the equality keys of ON
     HashJoinIgnoresNonKeyOn,
     /// index nested loop join: lookup key for DATE / BOOLEAN / TIMESTAMP never matches the stored index key
@@ -1060,6 +1065,7 @@ impl Emu {
             Emu::NestedJoinInputFiltersIgnored => "nested_join_input_filters_ignored",
             Emu::ReorderDropsConditions => "join_reordering_drops_join_conditions",
             Emu::PushdownMisroutesIsNull => "predicate_pushdown_misroutes_is_null_conjunct",
+            Emu::IndexScanJoinInputLosesKeyPredicate | Emu::IndexScanJoinInputLosesAllPredicates => "index_scan_join_input_loses_its_predicate",
             Emu::HashJoinIgnoresNonKeyOn => "hash_join_ignores_non_key_on_conjuncts",
             Emu::InljSpecialKeyNeverMatches => "index_nested_loop_join_date_bool_timestamp_key_never_matches",
             Emu::InljRightAsInner => "index_nested_loop_join_runs_right_join_as_inner",
@@ -1070,12 +1076,14 @@ impl Emu {
         }
     }
     /// application order
-    const ALL: [Emu; 12] = [
+    const ALL: [Emu; 14] = [
         Emu::NestedStreamingOrIndexJoinYieldsNoRows,
         Emu::NestedJoinRunsAsInner,
         Emu::NestedJoinInputFiltersIgnored,
         Emu::ReorderDropsConditions,
         Emu::PushdownMisroutesIsNull,
+        Emu::IndexScanJoinInputLosesKeyPredicate,
+        Emu::IndexScanJoinInputLosesAllPredicates,
         Emu::HashJoinIgnoresNonKeyOn,
         Emu::InljSpecialKeyNeverMatches,
         Emu::InljRightAsInner,
@@ -1113,6 +1121,20 @@ fn plan_join_ops(plan: &str) -> Vec<&'static str> {
             if l.starts_with(pat) {
                 v.push(name);
                 break;
+            }
+        }
+    }
+    v
+}
+
+/// tables the plan reads through "IndexScan on <t>" / "SecondaryIndexScan on <t>" as a join input
+fn plan_index_scanned_tables(plan: &str) -> BTreeSet<String> {
+    let mut v = BTreeSet::new();
+    for line in plan.lines() {
+        let l = line.trim();
+        if l.starts_with("-> IndexScan on ") || l.starts_with("-> SecondaryIndexScan on ") {
+            if let Some(i) = l.find(" on ") {
+                v.insert(l[i + 4..].split_whitespace().next().unwrap_or("").trim_start_matches("root.").to_string());
             }
         }
     }
@@ -1187,6 +1209,10 @@ fn applicable_emus(q: &JQ, spec: &Spec, plan: &str) -> Vec<Emu> {
             }
         }
     }
+    if !plan_index_scanned_tables(plan).is_empty() && q.where_.iter().any(|a| matches!(a, Atom::CmpLit(..))) {
+        v.push(Emu::IndexScanJoinInputLosesKeyPredicate);
+        v.push(Emu::IndexScanJoinInputLosesAllPredicates);
+    }
     if hash && !q.comma && q.steps[0].on.iter().any(|a| matches!(a, Atom::Equi(..))) && q.steps[0].on.iter().any(|a| !matches!(a, Atom::Equi(..))) {
         v.push(Emu::HashJoinIgnoresNonKeyOn);
     }
@@ -1217,7 +1243,7 @@ fn applicable_emus(q: &JQ, spec: &Spec, plan: &str) -> Vec<Emu> {
 }
 
 /// the query the defective engine effectively evaluates (row-level patches are applied by `emulated_rows`)
-fn emulate(q: &JQ, spec: &Spec, set: &[Emu]) -> JQ {
+fn emulate(q: &JQ, spec: &Spec, set: &[Emu], plan: &str) -> JQ {
     let mut e = q.clone();
     let top = e.steps.len().saturating_sub(1);
     for emu in Emu::ALL.iter().filter(|x| set.contains(x)) {
@@ -1256,7 +1282,9 @@ fn emulate(q: &JQ, spec: &Spec, set: &[Emu]) -> JQ {
                     let mut out = vec![];
                     for a in e.where_.clone() {
                         match &a {
-                            // evaluated without its column: IS NULL holds, IS NOT NULL does not
+                            // evaluated on the pushed side: a same-named column there is taken instead; without one,
+                            // IS NULL holds and IS NOT NULL does not
+                            Atom::IsNull(c, neg) if c.t != t && spec.tabs[e.trefs[t].tab].col(&c.col).is_some() => out.push(Atom::IsNull(CRef { t, col: c.col.clone() }, *neg)),
                             Atom::IsNull(c, false) if c.t != t => {}
                             Atom::IsNull(c, true) if c.t != t => out.push(never_true(&e, spec, c.t)),
                             _ => out.push(a),
@@ -1264,6 +1292,24 @@ fn emulate(q: &JQ, spec: &Spec, set: &[Emu]) -> JQ {
                     }
                     e.where_ = out;
                 }
+            }
+            Emu::IndexScanJoinInputLosesKeyPredicate | Emu::IndexScanJoinInputLosesAllPredicates => {
+                let scanned = plan_index_scanned_tables(plan);
+                let all = *emu == Emu::IndexScanJoinInputLosesAllPredicates;
+                // table references whose table is index-scanned and that carry a literal comparison on an indexed column
+                let hit: BTreeSet<usize> = e
+                    .where_
+                    .iter()
+                    .filter_map(|a| match a {
+                        Atom::CmpLit(c, _, _) if scanned.contains(&spec.tabs[e.trefs[c.t].tab].name) && e.indexed(spec, c).is_some() => Some(c.t),
+                        _ => None,
+                    })
+                    .collect();
+                let ee = e.clone();
+                e.where_.retain(|a| match a {
+                    Atom::CmpLit(c, _, _) if hit.contains(&c.t) && ee.indexed(spec, c).is_some() => false,
+                    other => !(all && atom_trefs(other).iter().all(|t| hit.contains(t))),
+                });
             }
             Emu::HashJoinIgnoresNonKeyOn => {
                 if !e.comma && e.steps[top].on.iter().any(|a| matches!(a, Atom::Equi(..))) {
@@ -1300,7 +1346,7 @@ fn emulate(q: &JQ, spec: &Spec, set: &[Emu]) -> JQ {
 
 /// rows the defective engine is predicted to return
 fn emulated_rows(q: &JQ, spec: &Spec, set: &[Emu], plan: &str) -> Option<Vec<Row>> {
-    let e = emulate(q, spec, set);
+    let e = emulate(q, spec, set, plan);
     if set.contains(&Emu::RightJoinOverEmptyNestedInputMisalignsColumns) {
         if e.trefs.len() != 3 || e.comma {
             return None;
@@ -1731,11 +1777,12 @@ impl<'s> Worker<'s> {
                 }
             }
         }
-        for e in set {
+        let distinct: BTreeSet<&str> = set.iter().map(|e| e.name()).collect();
+        for name in distinct {
             rep.violations.push((
                 "bag".into(),
-                format!("C17/sql/bag/defect:{}", e.name()),
-                json!({"sql": q.sql(spec), "setup": used_setup(spec, q), "plan": plan, "fail": f.detail, "explained_by_emulating": names, "emulated_sql": emulate(q, spec, set).sql(spec), "minimal": minimal}),
+                format!("C17/sql/bag/defect:{}", name),
+                json!({"sql": q.sql(spec), "setup": used_setup(spec, q), "plan": plan, "fail": f.detail, "explained_by_emulating": names, "emulated_sql": emulate(q, spec, set, plan).sql(spec), "minimal": minimal}),
             ));
         }
     }
@@ -2426,7 +2473,8 @@ pub fn run(a: &Args) -> i32 {
         "(a) SQL level: fresh database per case group with 2..4 tables (3..25 rows, optional integer primary key, integer and text join keys from small domains with duplicates and 0/15/30% NULLs, unique payload column, optional DATE/BOOLEAN/TIMESTAMP key stratum, optional secondary indexes on key columns); generated 2..4-way joins (INNER/LEFT/RIGHT/FULL OUTER/CROSS chains or comma joins with WHERE equalities; ON = equality on int/text/pk/special keys, non-equi comparisons, OR, extra conjuncts on one or both sides; WHERE atoms on any side; aliases, unqualified names, SELECT * or qualified columns from all sides, self joins); each query runs under PRAGMA join_memory_budget in {1024, 4096, 65536, 10485760}; `bag` = result bag equals the reference nested-loop evaluator, `budget_invariant` = same outcome and bag under all four budgets; EXPLAIN is recorded per query. A failing query is first compared with the model under exact emulations of the defects established on the unchanged tree (smallest matching set; each predicts the precise wrong output; signature C17/sql/<assertion>/defect:<name>, one report per defect in the set); otherwise it is shrunk (tables, conjuncts, WHERE atoms, select items, join kinds, aliases, qualification; then secondary indexes / NULLs / duplicates in referenced columns removed on fresh databases, rows deleted for the first witness), emulations are tried again on the minimal case, and what stays unexplained gets a signature built from the minimal query's join kinds, features, plan operators and needed data facts. (b) component level: generated left/right inputs (0..40 rows, int/text keys, NULL and duplicate keys, one or two key columns) as MaterializedRowSource into DynamicExecutor::{NestedLoopJoin (equi and equi+non-equi condition), GraceHashJoin in memory (1..16 partitions), GraceHashJoin with spill_dir (budgets 256 B..64 KiB, 1..16 partitions; spill files counted after open()), StreamingHashJoin (build=left; swapped for INNER/FULL)} for INNER/LEFT/RIGHT/FULL; `bag` vs the model's nested-loop definition (failing inputs are row-minimised; signature = executor class / join kind / shape of the missing or extra rows), `algorithm_invariant` (model-free) = same bag as the NestedLoopJoin executor on the same equality condition. distinct_nontrivial = distinct (query, data) / (executor, join kind, input) cases with a non-empty expected result or a failure",
     );
     let quick = ctx.quick();
-    let scratch = Scratch::new("c17");
+    // under Miri nothing touches the file system: the scratch directory is only named, never created
+    let scratch = if cfg!(miri) { Scratch { root: PathBuf::from(format!("{}/scratch/c17-miri-unused", crate::report::VERIF_DIR)) } } else { Scratch::new("c17") };
     if cfg!(miri) {
         // no files / mmap under Miri: only the in-memory executors
         run_component_level(&mut ctx, a, &scratch, 1e9);
